@@ -67,7 +67,8 @@ class NL:
 
 def build(nl, style='bench'):
     """styles: bench (every signal a fork, ports are the forks themselves - like bench.parse),
-    verilog ('input'/'output' cells plus a fork per signal - like verilog.parse), lean (verilog + eliminate_1to1_forks)."""
+    verilog ('input'/'output' cells plus a fork per signal - like verilog.parse), lean (verilog + eliminate_1to1_forks),
+    vbf (verilog plus a branch fork in front of every reader pin - like verilog.parse(branchforks=True): forks fed by forks)."""
     c = Circuit(nl.name)
     forks = {}
 
@@ -87,12 +88,17 @@ def build(nl, style='bench'):
     for name, kind, outs, ins in nl.gates:
         for pin, o in enumerate(outs):
             if o is not None: Line(c, (cells[name], pin), fork(o))
+    def reader(sig, dst, tag):
+        if style == 'vbf':
+            bf = Node(c, f'{sig}~{tag}')
+            Line(c, fork(sig), bf); Line(c, bf, dst)
+        else: Line(c, fork(sig), dst)
     for name, kind, outs, ins in nl.gates:
         for pin, i in enumerate(ins):
-            if i is not None: Line(c, fork(i), (cells[name], pin))
+            if i is not None: reader(i, (cells[name], pin), f'{name}.{pin}')
     if style != 'bench':
         for s, d in nl.ports:
-            if d == 'out' and s in forks: Line(c, forks[s], c.cells[s])
+            if d == 'out' and s in forks: reader(s, c.cells[s], 'port')
     if style == 'lean': c.eliminate_1to1_forks()
     return c
 
